@@ -101,7 +101,7 @@ pub(crate) mod __verif_kani {
         if t < len { assert!(r == Some(val(h, t))); assert!(c.current() == r); } else { assert!(r.is_none() && c.current().is_none() && c.is_exhausted()); }
     }
 
-    //@ kind=I props=C03 bound=4_high_words(256_bits)_each_with_at_most_4_ones_at_arbitrary_positions,low_width=0 fn=EliasFanoCursor::advance_one : from ANY cursor satisfying the invariant (any index, or exhausted): afterwards index == min(idx+1,len), the returned element is element idx+1 of the sequence (None when exhausted), and the invariant holds again
+    //@ kind=B props=C03 bound=4_high_words(256_bits)_each_with_at_most_4_ones_at_arbitrary_positions,low_width=0 fn=EliasFanoCursor::advance_one : from ANY cursor satisfying the invariant (any index, or exhausted): afterwards index == min(idx+1,len), the returned element is element idx+1 of the sequence (None when exhausted), and the invariant holds again
     #[kani::proof]
     #[kani::unwind(10)]
     #[kani::stub(crate::util::broadword::select_in_word, contract_select_in_word)]
@@ -114,7 +114,7 @@ pub(crate) mod __verif_kani {
         check_after(&h, len, &c, r, i0 + 1);
     }
 
-    //@ kind=I props=C03 tier=thorough bound=2_high_words(128_bits)_each_with_at_most_4_ones_at_arbitrary_positions,low_width=0 fn=EliasFanoCursor::advance_by : from ANY cursor satisfying the invariant and for EVERY k: usize (including k == 0, 1, > 64 and values that would overflow idx + k): index == min(idx+k,len), element == element idx+k (None when exhausted), invariant holds again
+    //@ kind=B props=C03 tier=thorough bound=2_high_words(128_bits)_each_with_at_most_4_ones_at_arbitrary_positions,low_width=0 fn=EliasFanoCursor::advance_by : from ANY cursor satisfying the invariant and for EVERY k: usize (including k == 0, 1, > 64 and values that would overflow idx + k): index == min(idx+k,len), element == element idx+k (None when exhausted), invariant holds again
     #[kani::proof]
     #[kani::unwind(10)]
     #[kani::stub(crate::util::broadword::select_in_word, contract_select_in_word)]
@@ -144,13 +144,13 @@ pub(crate) mod __verif_kani {
             }
         };
     }
-    //@ kind=I props=C03 tier=thorough bound=2_high_words(128_bits)_each_with_at_most_4_ones_at_arbitrary_positions,low_width=0 fn=EliasFanoCursor::seek : from ANY cursor satisfying the invariant: seek(j) for every j: usize lands on element j (or exhausted) and re-establishes the invariant
+    //@ kind=B props=C03 tier=thorough bound=2_high_words(128_bits)_each_with_at_most_4_ones_at_arbitrary_positions,low_width=0 fn=EliasFanoCursor::seek : from ANY cursor satisfying the invariant: seek(j) for every j: usize lands on element j (or exhausted) and re-establishes the invariant
     ef_case!(c03_cursor_seek, |h, len, ef, j| { let mut c = any_cursor(h, len, ef); let r = c.seek(j); check_after(h, len, &c, r, j); });
-    //@ kind=I props=C03 tier=thorough bound=2_high_words(128_bits)_each_with_at_most_4_ones_at_arbitrary_positions,low_width=0 fn=EliasFano::cursor_from : cursor_from(j) for every j establishes the invariant on element j (or exhausted)
+    //@ kind=B props=C03 tier=thorough bound=2_high_words(128_bits)_each_with_at_most_4_ones_at_arbitrary_positions,low_width=0 fn=EliasFano::cursor_from : cursor_from(j) for every j establishes the invariant on element j (or exhausted)
     ef_case!(c03_cursor_from, |h, len, ef, j| { let c = ef.cursor_from(j); let r = c.current(); check_after(h, len, &c, r, j); });
-    //@ kind=I props=C03 bound=2_high_words(128_bits)_each_with_at_most_4_ones_at_arbitrary_positions,low_width=0 fn=EliasFano::cursor : cursor() establishes the invariant on element 0
+    //@ kind=B props=C03 bound=2_high_words(128_bits)_each_with_at_most_4_ones_at_arbitrary_positions,low_width=0 fn=EliasFano::cursor : cursor() establishes the invariant on element 0
     ef_case!(c03_cursor_new, |h, len, ef, j| { let c = ef.cursor(); let r = c.current(); check_after(h, len, &c, r, 0); });
-    //@ kind=I props=C03 tier=thorough bound=2_high_words(128_bits)_each_with_at_most_4_ones_at_arbitrary_positions,low_width=0 fn=EliasFano::{get,len} : get(j) == element j (None past the end) for every j: usize; len
+    //@ kind=B props=C03 tier=thorough bound=2_high_words(128_bits)_each_with_at_most_4_ones_at_arbitrary_positions,low_width=0 fn=EliasFano::{get,len} : get(j) == element j (None past the end) for every j: usize; len
     ef_case!(c03_get, |h, len, ef, j| {
         let g = ef.get(j);
         if j < len { assert!(g == Some(val(h, j))); } else { assert!(g.is_none()); }
